@@ -19,6 +19,10 @@ class OnMessage:
         self.an = get_analysis(ctx)
         self.fn = ctx.program.func(f"{APPSESSION}.onMessage")
         ctx.analysed(self.fn)
+        # single-expression private helpers (`self._h(x)` returning one expression) are read as the expression they return: whether a repeated
+        # test was extracted into such a helper does not change what the branches do
+        from .common import expand_expr_helpers
+        self.fn = expand_expr_helpers(ctx, self.fn)
         self.g, self.mf, self.res = self.an.get(self.fn)
         self._closure_arm = {}
 
